@@ -47,6 +47,7 @@ import Driver.Probe
 import Driver.VocBlocks
 import Driver.ShortIo
 import Driver.StageLoop
+import Driver.RsrcSwap
 open Sf
 
 def lawOf (s : String) : Option G711.Law :=
@@ -139,4 +140,5 @@ def main (args : List String) : IO UInt32 := do
   | "vocblocks" :: rest => VocBlocksDriver.main rest
   | "shortio" :: rest => ShortIoDriver.main rest
   | "stage" :: rest => StageLoopDriver.main rest
+  | "second" :: rest => RsrcSwapDriver.main rest
   | _ => IO.eprintln "usage: sfmodel <g711|...> ..."; return 2
